@@ -2,7 +2,8 @@
    (CTL/model_checking.py; model Model/CTLmc.v).  Theorems only; proofs in Proofs/CTLP.v
    (per-operator lemmas checkEX/EU/EG_spec and the induction on fuel), instantiated in
    Proofs/Assemble.v with the graph, SCC, generalised-Buechi and rewriting lemmas. *)
-From PMC Require Import Spec.Lemmas Proofs.Assemble.
+From PMC Require Import Spec.Lemmas Model.Memo Proofs.Assemble.
+From PMC Require Proofs.PrintP Proofs.MemoP.
 
 (* For EVERY well-formed total Kripke structure and EVERY CTL state formula the model returns
    a duplicate-free list that contains exactly the states satisfying f under the path
@@ -19,6 +20,22 @@ Print Assumptions C01_exact.
 Theorem C01_guard : forall K f, ctl_state f = false -> ctl_modelcheck K f = TypeErr.
 Proof. intros K f H. unfold ctl_modelcheck. rewrite H. reflexivity. Qed.
 Print Assumptions C01_guard.
+
+(* The CODE keeps a per-call memo table keyed by the PRINTED form of the formula object
+   (Formula.__eq__/__hash__).  Model/Memo.v models exactly that ([ctl_modelcheck_memo]: an
+   insertion-ordered dict with CPython's key comparison, the Bool special case, the fallback
+   branch storing under both keys) and is tied to the code on exotic atom names by the
+   correspondence check.  Over identifier atoms the memo is invisible: same result list. *)
+Theorem C01_memo : forall K f, ctl_state f = true -> PMC.Proofs.PrintP.ident_atoms f = true -> arity_ok f = true ->
+  ctl_modelcheck_memo K f = ctl_modelcheck K f.
+Proof. exact PMC.Proofs.MemoP.check_memo_sound. Qed.
+Print Assumptions C01_memo.
+
+(* known finding KF-print-a: with an atom NAMED like a printed subformula the memoised checker
+   (the code) answers wrongly *)
+Theorem C01_memo_refuted : exists K f, ctl_state f = true /\ ctl_modelcheck_memo K f <> ctl_modelcheck K f.
+Proof. exact PMC.Proofs.MemoP.memo_refuted. Qed.
+Print Assumptions C01_memo_refuted.
 
 (* non-vacuity: a well-formed total structure, a formula with nested temporal operators,
    and an answer that is neither empty nor everything *)
